@@ -41,6 +41,14 @@ pub enum C03Case {
         /// extra items appended to the PAYLOADDIGEST array: true = the correct digest, false = a wrong one
         #[serde(default)]
         extra_payload_digests: Vec<bool>,
+        /// size tags in the signature header: 0 none, 1 SIZE, 2 LONGSIZE, 3 both - stating the
+        /// size of header + payload as it was BEFORE `trailing` was appended; 4/5 = SIZE/LONGSIZE
+        /// stating one byte less than there is
+        #[serde(default)]
+        size_tags: u8,
+        /// bytes appended to the file after all digests were computed (they are payload bytes)
+        #[serde(default, with = "crate::engine::hexser")]
+        trailing: Vec<u8>,
     },
     /// one bit of hand-encoded base package `base` flipped
     BitFlip { base: u8, bit: u32 },
@@ -95,6 +103,11 @@ fn construct(payload: &[u8], name: &str, md5: &Option<Dk>, sha1: &Option<Dk>, sh
 
 #[allow(clippy::too_many_arguments)]
 fn construct_multi(payload: &[u8], name: &str, md5: &Option<Dk>, sha1: &Option<Dk>, sha256: &Option<Dk>, pd: &Option<(Dk, u32)>, order: &[u16], extra: &[bool]) -> Vec<u8> {
+    construct_full(payload, name, md5, sha1, sha256, pd, order, extra, 0, &[])
+}
+
+#[allow(clippy::too_many_arguments)]
+fn construct_full(payload: &[u8], name: &str, md5: &Option<Dk>, sha1: &Option<Dk>, sha256: &Option<Dk>, pd: &Option<(Dk, u32)>, order: &[u16], extra: &[bool], size_tags: u8, trailing: &[u8]) -> Vec<u8> {
     let mut main = filepkg::basic_entries(name);
     if let Some((k, algo)) = pd {
         let correct = digests::sha256_hex(&[payload]);
@@ -121,11 +134,24 @@ fn construct_multi(payload: &[u8], name: &str, md5: &Option<Dk>, sha1: &Option<D
     if let Some(k) = md5 {
         sig.push((tags::SIG_MD5, Val::Bin(mangle_bin(digests::md5_raw(&[&hb, payload]), digests::md5_raw(&[&hb]), k))));
     }
+    let total = (hb.len() + payload.len()) as u64;
+    match size_tags {
+        1 | 3 => sig.push((tags::SIG_SIZE, Val::Int32(vec![total as u32]))),
+        4 => sig.push((tags::SIG_SIZE, Val::Int32(vec![total.saturating_sub(1) as u32]))),
+        _ => {}
+    }
+    match size_tags {
+        2 | 3 => sig.push((tags::SIG_LONGSIZE, Val::Int64(vec![total]))),
+        5 => sig.push((tags::SIG_LONGSIZE, Val::Int64(vec![total.saturating_sub(1)]))),
+        _ => {}
+    }
     sig.sort_by_key(|e| e.0);
     permute(&mut sig, order, 0);
     let sigh = fmt::layout(&sig, Some(fmt::TAG_HEADERSIGNATURES));
     let pad = vec![0u8; fmt::sig_padding(sigh.dl)];
-    fmt::RawPackage { lead: fmt::default_lead(name), sig: sigh, sig_pad: pad, hdr, payload: payload.to_vec() }.encode()
+    let mut all = payload.to_vec();
+    all.extend_from_slice(trailing);
+    fmt::RawPackage { lead: fmt::default_lead(name), sig: sigh, sig_pad: pad, hdr, payload: all }.encode()
 }
 
 #[derive(Debug, PartialEq)]
@@ -235,7 +261,7 @@ impl Property for C03 {
         ]
     }
     fn required_labels(&self, _t: Tier) -> Vec<&'static str> {
-        vec!["multi-item-payload-digest", "permuted-index", "expect-ok", "expect-mismatch", "expect-anyerr", "only-md5-wrong", "only-sha1-wrong", "only-sha256-wrong", "only-payload-wrong", "algo-known-unsupported", "algo-unknown", "bitflip"]
+        vec!["size-tag-smaller-than-file", "multi-item-payload-digest", "permuted-index", "expect-ok", "expect-mismatch", "expect-anyerr", "only-md5-wrong", "only-sha1-wrong", "only-sha256-wrong", "only-payload-wrong", "algo-known-unsupported", "algo-unknown", "bitflip"]
     }
     fn phases(&self, tier: Tier) -> Vec<Phase<C03Case>> {
         let bits: Vec<(u8, u32)> = self.flip_bases.iter().enumerate().flat_map(|(i, b)| (0..b.len() as u32 * 8).map(move |bit| (i as u8, bit))).collect();
@@ -245,11 +271,11 @@ impl Property for C03 {
             Phase::Enumerate { name: "every-bit-flip", total: bits.len() as u64, exhaustive: true, gen: Arc::new(move |i| b2.get(i as usize).map(|(base, bit)| C03Case::BitFlip { base: *base, bit: *bit })) },
             Phase::Random {
                 name: "constructed",
-                cases: tier.pick(40_000, 8_000_000),
+                cases: tier.pick(400_000, 8_000_000),
                 strat: Arc::new(|| {
                     let algo = prop_oneof![6 => Just(8u32), 2 => proptest::sample::select(vec![1u32, 9, 10, 11, 12, 14]), 2 => proptest::sample::select(vec![0u32, 2, 3, 7, 13, 255, u32::MAX]), 1 => any::<u32>()];
-                    (proptest::collection::vec(any::<u8>(), 0..40), "[a-z]{1,8}", proptest::option::weighted(0.6, dk()), proptest::option::weighted(0.6, dk()), proptest::option::weighted(0.7, dk()), proptest::option::weighted(0.6, (dk(), algo)), prop_oneof![2 => Just(vec![]), 1 => proptest::collection::vec(any::<u16>(), 12)], prop_oneof![4 => Just(vec![]), 1 => proptest::collection::vec(any::<bool>(), 1..3)])
-                        .prop_map(|(payload, name, md5, sha1, sha256, payload_digest, order, extra_payload_digests)| C03Case::Constructed { payload, name, md5, sha1, sha256, payload_digest, order, extra_payload_digests })
+                    (proptest::collection::vec(any::<u8>(), 0..40), "[a-z]{1,8}", proptest::option::weighted(0.6, dk()), proptest::option::weighted(0.6, dk()), proptest::option::weighted(0.7, dk()), proptest::option::weighted(0.6, (dk(), algo)), prop_oneof![2 => Just(vec![]), 1 => proptest::collection::vec(any::<u16>(), 12)], prop_oneof![4 => Just(vec![]), 1 => proptest::collection::vec(any::<bool>(), 1..3)], (prop_oneof![3 => Just(0u8), 2 => 1u8..6], prop_oneof![3 => Just(vec![]), 1 => proptest::collection::vec(any::<u8>(), 1..9)]))
+                        .prop_map(|(payload, name, md5, sha1, sha256, payload_digest, order, extra_payload_digests, (size_tags, trailing))| C03Case::Constructed { payload, name, md5, sha1, sha256, payload_digest, order, extra_payload_digests, size_tags, trailing })
                         .boxed()
                 }),
             },
@@ -258,7 +284,13 @@ impl Property for C03 {
     fn check(&self, case: &C03Case) -> Outcome {
         let mut o = Outcome::new();
         let bytes = match case {
-            C03Case::Constructed { payload, name, md5, sha1, sha256, payload_digest, order, extra_payload_digests } => {
+            C03Case::Constructed { payload, name, md5, sha1, sha256, payload_digest, order, extra_payload_digests, size_tags, trailing } => {
+                if *size_tags != 0 {
+                    o.label("size-tag");
+                    if !trailing.is_empty() || *size_tags > 3 {
+                        o.label("size-tag-smaller-than-file");
+                    }
+                }
                 if !extra_payload_digests.is_empty() && payload_digest.is_some() {
                     o.label("multi-item-payload-digest");
                 }
@@ -269,7 +301,7 @@ impl Property for C03 {
                 let pdw = matches!(payload_digest, Some((x, 8)) if *x != Dk::Correct);
                 let n_wrong = [wrong(md5), wrong(sha1), wrong(sha256), pdw].iter().filter(|b| **b).count();
                 let algo_ok = !matches!(payload_digest, Some((_, a)) if *a != 8);
-                if n_wrong == 1 && algo_ok {
+                if n_wrong == 1 && algo_ok && trailing.is_empty() {
                     o.label(if wrong(md5) { "only-md5-wrong" } else if wrong(sha1) { "only-sha1-wrong" } else if wrong(sha256) { "only-sha256-wrong" } else { "only-payload-wrong" });
                 }
                 if let Some((_, a)) = payload_digest {
@@ -279,7 +311,7 @@ impl Property for C03 {
                         o.label("algo-unknown");
                     }
                 }
-                construct_multi(payload, name, md5, sha1, sha256, payload_digest, order, extra_payload_digests)
+                construct_full(payload, name, md5, sha1, sha256, payload_digest, order, extra_payload_digests, *size_tags, trailing)
             }
             C03Case::BitFlip { base, bit } => {
                 o.label("bitflip");
@@ -290,7 +322,7 @@ impl Property for C03 {
             }
         };
         let exp = expectation(&bytes);
-        let p = match panics::catch(|| rpm::Package::parse(&mut &bytes[..])) {
+        let p = match panics::catch(|| super::common::with_source(&bytes, fnv1a(&bytes) >> 9, |mut r| rpm::Package::parse(&mut r))) {
             Ok(Ok(p)) => p,
             Ok(Err(_)) => {
                 o.label("unparseable");
